@@ -36,6 +36,9 @@ SOURCES: Dict[str, Tuple[str, str]] = {
     "binop_mixed": ("a + 0.25", "float"), "div": ("a / 4", "float"), "call_int": ("inc(a)", "int"), "call_float": ("half(a)", "float"), "call_str": ("tag(a)", "str"),
     "list_int": ("li[1]", "int"), "list_float": ("lf[1]", "float"), "neg_float": ("-2.5", "float"), "cast_float": ("float(a)", "float"), "cast_int": ("int(2.75)", "int"),
     "fstring": ('f"v{a}"', "str"), "not_expr": ("not (a > 2)", "bool"),
+    # arithmetic on truth values is integer arithmetic
+    "neg_bool": ("-(a > 2)", "int"), "pos_bool": ("+(a > 2)", "int"), "inv_bool": ("~(a > 2)", "int"), "neg_bool_lit": ("-True", "int"), "bool_sum": ("(a > 2) + (a > 1)", "int"),
+    "bool_scaled": ("(a > 2) * 3", "int"), "bool_half": ("(a > 2) / 2", "float"), "neg_not": ("-(not (a > 9))", "int"),
     # device getters
     "get_speed": ("mot.get_speed()", "float"), "get_applied": ("mot.get_applied_speed() * 2", "float"), "get_mode": ("mot.get_mode()", "str"), "is_inverted": ("mot.is_inverted()", "bool"),
     "servo_read": ("srv.read()", "float"), "servo_read_us": ("srv.read_us() / 2", "float"),
